@@ -36,6 +36,9 @@ for sid in ids:
         cands = [os.path.join(d, "patch.diff")] + sorted(os.path.join(d, f) for f in os.listdir(d) if f.startswith("patch.rebased-"))
         for cand in cands:
             ap = subprocess.run(["git", "-C", wt, "apply", "--3way", cand], capture_output=True, text=True)
+            if ap.returncode != 0:
+                subprocess.run(["git", "-C", wt, "checkout", "--", "."], capture_output=True)
+                ap = subprocess.run(["git", "-C", wt, "apply", cand], capture_output=True, text=True)
             if ap.returncode == 0: break
             subprocess.run(["git", "-C", wt, "checkout", "--", "."], capture_output=True)
         if ap.returncode != 0:
